@@ -1,6 +1,7 @@
 import A2lVerif.Lemmas.Sort15
 import A2lVerif.Lemmas.Sort15Order
 import A2lVerif.Lemmas.Sort15Iter
+import A2lVerif.Props.C14
 /-!
 # C15 — sort_new_items(): stable placement over arbitrarily long edit histories
 
@@ -121,6 +122,28 @@ theorem iterInv_of_distinct (m : RModule) (hk : (m.toModule.all.map Elem.key).No
     (mem_all_iff m b).2 (.inl ⟨r, hr, hab.subset (List.mem_cons_of_mem _ List.mem_cons_self)⟩)
   rw [hd a ha b hb hne hu]
   exact String.le_refl _
+
+/-- strictly increasing uids identify their elements -/
+theorem placedDistinct_of_increasing (m : RModule) (h : (m.toModule.all.map (·.uid)).Pairwise (· < ·)) :
+    PlacedDistinct m := by
+  intro a ha b hb _ hu
+  generalize m.toModule.all = l at h ha hb
+  induction l with
+  | nil => cases ha
+  | cons x xs ih =>
+    rw [List.map_cons, List.pairwise_cons] at h
+    have hx : ∀ y ∈ xs, x.uid < y.uid := fun y hy => h.1 y.uid (List.mem_map_of_mem hy)
+    rcases List.mem_cons.1 ha with rfl | ha' <;> rcases List.mem_cons.1 hb with rfl | hb'
+    · rfl
+    · have := hx b hb'; omega
+    · have := hx a ha'; omega
+    · exact ih h.2 ha' hb'
+
+/-- **after `sort()` the invariant holds** (C14: `sort()` numbers the elements 1, 2, 3, ... along the sections): so any
+    number of `sort_new_items()` calls that return keeps the written order `sort()` established -/
+theorem iterInv_after_sort (rm : RModule) (m : Module) (hwf : WF m) (h : rm.toModule = sort m)
+    (hk : (rm.toModule.all.map Elem.key).Nodup) (hs : SinglesWF rm) : IterInv rm :=
+  iterInv_of_distinct rm hk hs (placedDistinct_of_increasing rm (by rw [h]; exact (sort_uids_increasing m hwf).1))
 
 /-- the invariant survives a call -/
 theorem iterInv_preserved (m m' : RModule) (h : sortNewItems m = .ok m') (hi : IterInv m) : IterInv m' :=
